@@ -134,6 +134,8 @@ where
             let Some(capability_event) = self.capability_events.receive() else {
                 break;
             };
+            #[cfg(feature = "verif")]
+            crate::verif::point("app.event_taken");
             let command = self
                 .app
                 .update(capability_event, &mut model, &self.capabilities);
